@@ -8,7 +8,7 @@
 // Case space (per context x dtype {0 float, 1 double}; lanes = bit width / element bits):
 //   un    |op,dt,lay           |shape            unary ufunc  (12 ops with a SIMD implementation)
 //   bin   |op,dt,layL,layR     |lshape|rshape    add/subtract/multiply/divide, same shape or 2-D broadcasting
-//   outer |op,dt,layL,layR     |lshape|rshape    the four ufunc.outer
+//   outer |op,dt,layL,layR     |lshape|rshape    add/subtract/multiply .outer (nmtools has no divide.outer)
 //   red   |op,dt,lay,kd        |shape|axis       add.reduce / multiply.reduce; axis "_" = None, else one axis (positive or negative
 //                                                spelling); kd 0 nm::False 1 nm::True 2 run-time false 3 run-time true
 //   mm    |dt,layL             |M,K,N            matmul (lhs row- or column-major; rhs column-major: the only storage the SIMD matmul accepts,
@@ -57,6 +57,11 @@
 #define C12_CTX nmtools::array::simd::simde_AVX512
 #define C12_BITS 512
 #define C12_NAME "simde_AVX512"
+// not instantiable with this context (compile-time rejections, so not part of the space):
+//  - softshrink / hardshrink / hardswish: simde_avx512/ufunc.hpp uses simde_kxor_mask16/simde_knot_mask16/..., which SIMDe 0.7.4 (/usr/include/simde) does not provide
+//  - matmul<double>: simd_op.hpp:305 calls simde_mm512_fmadd_ps on __m512d operands (does not compile)
+#define C12_NO_SHRINK_SWISH
+#define C12_NO_MM_F64
 #else
 #error "select a context: -DC12_CTX_SSE | -DC12_CTX_AVX | -DC12_CTX_VEC128 | -DC12_CTX_VEC256 | -DC12_CTX_VEC512 | -DC12_CTX_SIMDE512"
 #endif
@@ -99,7 +104,7 @@ const char* nmc_property() { return "C12"; }
 #if !defined(__SANITIZE_ADDRESS__) && !defined(C12_NO_GUARD)
 #define C12_GUARD 1
 namespace guard {
-constexpr size_t PG = 4096, ARENA = 1ULL << 40, NCLASS = 64, NSTACK = 1024;
+constexpr size_t PG = 4096, ARENA = 1ULL << 40, NCLASS = 64, NSTACK = 4096, POISON = 256;
 static char* base = nullptr; static size_t bump = 0;
 static bool on = false; static int front = 0;
 static char* freelist[NCLASS + 1][NSTACK]; static size_t nfree[NCLASS + 1];
@@ -109,28 +114,33 @@ static void init() {
     if (base == MAP_FAILED) nmc::die("guard arena mmap");
 }
 static inline bool mine(const void* p) { return base && (const char*)p >= base && (const char*)p < base + ARENA; }
-// slot = [meta page RW][PROT_NONE][body pages RW][PROT_NONE]
+// slot = [meta page RW][PROT_NONE][body pages RW][PROT_NONE]; a freed slot keeps its protection layout and is reused without system calls.
+// The 256 bytes of the body next to the buffer (on its unguarded side) are filled with 0xFF (NaN as float/double, huge as an index), so a stray read
+// that stays inside the page is visible in the result as well.
 static void* alloc(size_t bytes, size_t align) {
     if (!base) init();
     if (!bytes) bytes = 1;
     size_t body = (bytes + PG - 1) / PG * PG, k = body / PG;
     char* slot;
     if (k <= NCLASS && nfree[k]) slot = freelist[k][--nfree[k]];
-    else { slot = base + bump; bump += body + 3 * PG; if (bump > ARENA) nmc::die("guard arena exhausted"); mprotect(slot, PG, PROT_READ | PROT_WRITE); }
+    else {
+        slot = base + bump; bump += body + 3 * PG; if (bump > ARENA) nmc::die("guard arena exhausted");
+        if (mprotect(slot, PG, PROT_READ | PROT_WRITE) || mprotect(slot + 2 * PG, body, PROT_READ | PROT_WRITE)) nmc::die("guard mprotect");
+        Meta* m = (Meta*)slot; m->magic = 0xC12C12C12ULL; m->body = body;
+    }
     char* b = slot + 2 * PG;
-    if (mprotect(b, body, PROT_READ | PROT_WRITE)) nmc::die("guard mprotect");
-    Meta* m = (Meta*)slot; m->magic = 0xC12C12C12ULL; m->body = body;
-    if (front) return b;
+    if (front) { memset(b + bytes, 0xFF, std::min(body - bytes, POISON)); return b; }
     uintptr_t p = (uintptr_t)(b + body - bytes);
     if (align > 1) p &= ~(uintptr_t)(align - 1);
+    { size_t gap = (size_t)((char*)p - b), n = std::min(gap, POISON); memset((char*)p - n, 0xFF, n); }
     return (void*)p;
 }
 static void release(void* q) {
     char* b = (char*)((uintptr_t)q & ~(uintptr_t)(PG - 1)); char* slot = b - 2 * PG; Meta* m = (Meta*)slot;
     if (m->magic != 0xC12C12C12ULL) nmc::die("guard: bad free");
     size_t body = m->body, k = body / PG;
-    madvise(b, body, MADV_DONTNEED); mprotect(b, body, PROT_NONE);
-    if (k <= NCLASS && nfree[k] < NSTACK) freelist[k][nfree[k]++] = slot;
+    if (k <= NCLASS && nfree[k] < NSTACK) { freelist[k][nfree[k]++] = slot; return; }
+    madvise(b, body, MADV_DONTNEED); mprotect(b, body, PROT_NONE); m->magic = 0;   // address space of rare big / surplus slots is not reused
 }
 struct Scope { bool prev; Scope(int front_) : prev(on) { on = true; front = front_; } ~Scope() { on = prev; } };
 } // namespace guard
@@ -165,6 +175,18 @@ namespace r12 = nmc::ref;
 template <typename T> using row_t = na::ndarray_t<nmtools_list<T>, nmtools_list<size_t>>;
 template <typename T> using col_t = na::column_major_ndarray_t<nmtools_list<T>, nmtools_list<size_t>>;
 
+static bool unary_available(long op) {
+#ifdef C12_NO_SHRINK_SWISH
+    if (op == nmc::ref::U_SOFTSHRINK || op == nmc::ref::U_HARDSHRINK || op == nmc::ref::U_HARDSWISH) return false;
+#endif
+    return true;
+}
+static bool mm_available(int dt) {
+#ifdef C12_NO_MM_F64
+    if (dt == 1) return false;
+#endif
+    return true;
+}
 static int lanes_of(int dt) { return C12_BITS / (dt ? 64 : 32); }
 static L uniq(L v) { L r; for (long x : v) if (x >= 1 && std::find(r.begin(), r.end(), x) == r.end()) r.push_back(x); std::sort(r.begin(), r.end()); return r; }
 template <typename F> static void each_shape_over(int d, const L& menu, F&& f) {
@@ -172,8 +194,9 @@ template <typename F> static void each_shape_over(int d, const L& menu, F&& f) {
 }
 
 void nmc_enumerate(const nmc::Tier& t, const nmc::Sink& emit) {
-    std::set<std::string> seen;
-    auto put = [&](const Case& c) { if (seen.insert(c.key()).second) emit(c); };
+    // no duplicates are generated: shape menus are de-duplicated locally (cheap, so that resuming after a crash does not re-hash every key)
+    auto put = [&](const Case& c) { emit(c); };
+    auto dedupe = [](std::vector<L> v) { std::vector<L> r; std::set<L> seen; for (auto& s : v) if (seen.insert(s).second) r.push_back(s); return r; };
     std::vector<int> dts;
 #ifdef C12_ONLY_F32
     dts.push_back(0);
@@ -189,19 +212,20 @@ void nmc_enumerate(const nmc::Tier& t, const nmc::Sink& emit) {
 #ifdef C12_PART_EW
         // 1-D, every element count
         for (long n = 1; n <= maxn; n++) {
-            for (long op = 0; op < r12::U_COUNT; op++) put(Case("un", {{op, dt, 0}, {n}}));
+            for (long op = 0; op < r12::U_COUNT; op++) if (unary_available(op)) put(Case("un", {{op, dt, 0}, {n}}));
             for (long op = 0; op < r12::B_COUNT; op++) put(Case("bin", {{op, dt, 0, 0}, {n}, {n}}));
         }
         // 2-D: both extents from E, both layouts; binary in every broadcast pattern
         each_shape_over(2, E, [&](const L& s) {
-            for (long lay = 0; lay <= 1; lay++) for (long op = 0; op < r12::U_COUNT; op++) put(Case("un", {{op, dt, lay}, s}));
-            std::vector<L> pat = {s, {1, s[1]}, {s[0], 1}, {1, 1}};
-            for (auto& ls : pat) for (auto& rs : pat) for (long ll = 0; ll <= 1; ll++) for (long rl = 0; rl <= 1; rl++)
+            for (long lay = 0; lay <= 1; lay++) for (long op = 0; op < r12::U_COUNT; op++) if (unary_available(op)) put(Case("un", {{op, dt, lay}, s}));
+            std::vector<L> pat = dedupe({s, {1, s[1]}, {s[0], 1}, {1, 1}});
+            for (auto& ls : pat) for (auto& rs : pat) if (std::max(ls[0], rs[0]) == s[0] && std::max(ls[1], rs[1]) == s[1])   // result shape == s: each pair appears under exactly one s
+              for (long ll = 0; ll <= 1; ll++) for (long rl = 0; rl <= 1; rl++)
                 for (long op = 0; op < r12::B_COUNT; op++) put(Case("bin", {{op, dt, ll, rl}, ls, rs}));
         });
         // n-d same shape
         for (auto& s : ND) if (s.size() == 3) {
-            for (long lay = 0; lay <= 1; lay++) for (long op = 0; op < r12::U_COUNT; op++) put(Case("un", {{op, dt, lay}, s}));
+            for (long lay = 0; lay <= 1; lay++) for (long op = 0; op < r12::U_COUNT; op++) if (unary_available(op)) put(Case("un", {{op, dt, lay}, s}));
             for (long ll = 0; ll <= 1; ll++) for (long rl = 0; rl <= 1; rl++) for (long op = 0; op < r12::B_COUNT; op++) put(Case("bin", {{op, dt, ll, rl}, s, s}));
         }
 #endif
@@ -211,13 +235,14 @@ void nmc_enumerate(const nmc::Tier& t, const nmc::Sink& emit) {
             for (int d = 1; d <= (t.thorough() ? 3 : 2); d++) each_shape_over(d, L{1, 2, 3}, [&](const L& s) { LS.push_back(s); });
             for (long n = 1; n <= maxn; n++) RS.push_back({n});
             for (auto& s : ND) if (s.size() == 2 || (s.size() == 3 && t.thorough())) RS.push_back(s);
+            RS = dedupe(RS);
             for (auto& ls : LS) for (auto& rs : RS) {
                 if (ls.size() == 3 && rs.size() == 1 && rs[0] > ln + 1 && rs[0] != 2 * ln + 1 && rs[0] != maxn) continue;   // 3-d left x every count: boundary counts only
                 for (long ll = 0; ll <= (ls.size() > 1 ? 1 : 0); ll++) for (long rl = 0; rl <= (rs.size() > 1 ? 1 : 0); rl++)
-                    for (long op = 0; op < r12::B_COUNT; op++) put(Case("outer", {{op, dt, ll, rl}, ls, rs}));
+                    for (long op = 0; op < r12::B_DIV; op++) put(Case("outer", {{op, dt, ll, rl}, ls, rs}));   // add, subtract, multiply (divide.outer does not exist)
             }
             // matmul: M,N in {1,2,lanes+1}, every K
-            for (long M : uniq({1, 2, ln + 1})) for (long N : uniq({1, 2, ln + 1})) for (long K = 1; K <= maxn; K++) for (long ll = 0; ll <= 1; ll++) put(Case("mm", {{dt, ll}, {M, K, N}}));
+            if (mm_available(dt)) for (long M : uniq({1, 2, ln + 1})) for (long N : uniq({1, 2, ln + 1})) for (long K = 1; K <= maxn; K++) for (long ll = 0; ll <= 1; ll++) put(Case("mm", {{dt, ll}, {M, K, N}}));
         }
 #endif
 #ifdef C12_PART_RED
@@ -226,6 +251,7 @@ void nmc_enumerate(const nmc::Tier& t, const nmc::Sink& emit) {
             for (long n = 1; n <= maxn; n++) RS.push_back({n});
             each_shape_over(2, E, [&](const L& s) { RS.push_back(s); });
             for (auto& s : ND) RS.push_back(s);
+            RS = dedupe(RS);
             for (auto& s : RS) {
                 long d = (long)s.size();
                 for (long lay = 0; lay <= (d > 1 ? 1 : 0); lay++) for (long op : {(long)r12::B_ADD, (long)r12::B_MUL}) for (long kd = 0; kd <= 3; kd++) {
@@ -326,10 +352,14 @@ template <typename T, typename A> static Run do_unary(int op, const A& a, bool f
     case r12::U_HARDTANH: { T lo = P::hardtanh_min, hi = P::hardtanh_max; return run3(full, front, [&] { return view::hardtanh(a, lo, hi); }, [&](auto... c) { return na::hardtanh(a, lo, hi, c...); }); }
     case r12::U_LEAKY_RELU: { T s = P::leaky_slope; return run3(full, front, [&] { return view::leaky_relu(a, s); }, [&](auto... c) { return na::leaky_relu(a, s, c...); }); }
     case r12::U_PRELU: { T s = P::prelu_alpha; return run3(full, front, [&] { return view::prelu(a, s); }, [&](auto... c) { return na::prelu(a, s, c...); }); }
+#ifndef C12_NO_SHRINK_SWISH
     case r12::U_SOFTSHRINK: { T s = P::softshrink_lambda; return run3(full, front, [&] { return view::softshrink(a, s); }, [&](auto... c) { return na::softshrink(a, s, c...); }); }
+#endif
     case r12::U_SOFTSIGN: return run3(full, front, [&] { return view::softsign(a); }, [&](auto... c) { return na::softsign(a, c...); });
+#ifndef C12_NO_SHRINK_SWISH
     case r12::U_HARDSHRINK: { T s = P::hardshrink_lambda; return run3(full, front, [&] { return view::hardshrink(a, s); }, [&](auto... c) { return na::hardshrink(a, s, c...); }); }
     case r12::U_HARDSWISH: return run3(full, front, [&] { return view::hardswish(a); }, [&](auto... c) { return na::hardswish(a, c...); });
+#endif
     }
     nmc::die("unary op");
 }
@@ -349,7 +379,7 @@ template <typename A, typename B> static Run do_outer(int op, const A& a, const 
     case r12::B_ADD: return run3(full, front, [&] { return view::outer_add(a, b); }, [&](auto... c) { return na::add.outer(a, b, nm::None, c...); });
     case r12::B_SUB: return run3(full, front, [&] { return view::outer_subtract(a, b); }, [&](auto... c) { return na::subtract.outer(a, b, nm::None, c...); });
     case r12::B_MUL: return run3(full, front, [&] { return view::outer_multiply(a, b); }, [&](auto... c) { return na::multiply.outer(a, b, nm::None, c...); });
-    case r12::B_DIV: return run3(full, front, [&] { return view::outer_divide(a, b); }, [&](auto... c) { return na::divide.outer(a, b, nm::None, c...); });
+    // divide has no outer form in nmtools (neither view::outer_divide nor array::divide.outer exists)
     }
     nmc::die("outer op");
 }
@@ -413,6 +443,10 @@ template <typename T> static Outcome execute_t(const Case& c) {
         });
     }
     if (o == "mm") {
+#ifdef C12_NO_MM_F64
+        if constexpr (sizeof(T) == 8) nmc::die("matmul<double> does not compile with this context");
+        else {
+#endif
         long lay = h[1]; long M = c.a[1][0], K = c.a[1][1], N = c.a[1][2];
         TArr<T> x = data_odd<T>(L{M, K}, 37, 11, 0.5, 64), y = data_odd<T>(L{K, N}, 29, 5, 0.25, 64);
         std::optional<TArr<T>> want = r12::c12_matmul<T>(x, y);
@@ -422,6 +456,9 @@ template <typename T> static Outcome execute_t(const Case& c) {
                 return run3(full, front, [&] { return view::matmul(a, b); }, [&](auto... cx) { return na::matmul(a, b, cx...); });
             });
         });
+#ifdef C12_NO_MM_F64
+        }
+#endif
     }
 #endif
 #ifdef C12_PART_RED
